@@ -98,11 +98,9 @@ def oracle(env, ev):
         ref = env._ref = Ref(rs.maxR, rs.maxT)
         env._acks_seen = 0
     if ev[0] == 'deliver':
-        n = sum(len(r['h']._worker_pids) if hasattr(r['h'], '_worker_pids')
-                else 0 for r in env.jobs if r['h'] is not None)
-        # any delivered accept message resets the count (R = 0)
-        if env.pool.restart_state.R == 0:
-            ref.count = 0
+        m = getattr(env, 'last_delivered', None)
+        if m is not None and m[0] == bp.ACK:
+            ref.accepted()        # a job was accepted: the count restarts
     if ev[0] == 'tick':
         log = getattr(env, 'tick_log', [])
         reaped = getattr(env, 'tick_reaped', [])
@@ -143,7 +141,7 @@ def configs(tier):
     ms = 30000 if not T else 300000
     ap = dict(kind='apply', fn='ok')
     A = dict(die=(1, -9, 0, bp.EX_RECYCLE), die_idle=True, put_faults=(),
-             max_adv=3, restart_window=True)
+             max_adv=3, restart_window=True, discard=True)
     for name, procs, pk in (
             ('R1/T1', 2, dict(max_restarts=1, max_restart_freq=1)),
             ('R2/T10', 2, dict(max_restarts=2, max_restart_freq=10)),
